@@ -36,6 +36,9 @@ func init() {
 	Registry["C17"] = C17
 	Registry["C19"] = C19
 	Registry["C15"] = C15
+	Registry["C08"] = C08
+	Registry["C12"] = C12
+	Registry["C20"] = C20
 }
 
 func init() { Registry["C13"] = C13 }
